@@ -1,4 +1,78 @@
-From ZV Require Import Base.Bytes C16.Model C17.Model.
-Theorem C17_placeholder : mech_eqb External External = true.
-Proof. reflexivity. Qed.
-Print Assumptions C17_placeholder.
+(* Properties/C17.v — the client-side handshake succeeds only on a proper server acceptance.
+   Only statements, each closed by [exact] of a lemma of C17/Proofs.v, and their assumptions.
+
+   run_client cfg cs      the model of Builder::socket(..).p2p().build() / Builder::address(..guid=..) on the client
+                          side (C17/Model.v) reading the chunks cs (what successive recvmsg calls return)
+   ODone w fd tail fds    completed: bytes written, cap_unix_fd, bytes and fds handed to the message reader
+   tokens, no_lf, guid_ok, empty_line_ahead     C16/Spec.v;   spec_client, cconforms, agrees      C17/Spec.v, C17/Proofs.v *)
+From ZV Require Import Base.Bytes Base.Res C16.Model C16.Spec C17.Model C17.Spec C17.Proofs.
+
+(* ---- every way the stream is cut gives the same outcome *)
+Theorem C17_split_indep : forall cfg cs1 cs2,
+  chunks_nonempty cs1 = true -> chunks_nonempty cs2 = true ->
+  stream_of cs1 = stream_of cs2 -> fds_of cs1 = fds_of cs2 ->
+  run_client cfg cs1 = run_client cfg cs2.
+Proof. exact client_split_independence. Qed.
+Print Assumptions C17_split_indep.
+
+(* ---- full strength, every stream and every chunking: WHENEVER the client completes,
+        - the stream starts with a CR LF terminated line  OK <g> ..  whose GUID is 32 hex digits and equals the
+          expected one if one was given,
+        - every fd received is handed to the message reader,
+        - if the transport can pass fds, a second line answers NEGOTIATE_UNIX_FD, fd passing is enabled exactly
+          when that line is AGREE_UNIX_FD, and what is handed to the message reader is everything after it;
+          otherwise fd passing stays disabled and everything after the first line is handed on *)
+Theorem C17_done_sound : forall cfg cs w fd tail fds,
+  chunks_nonempty cs = true ->
+  run_client cfg cs = ODone w fd tail fds ->
+  exists body1 g more rest1,
+    stream_of cs = body1 ++ [x0d; x0a] ++ rest1 /\ no_lf body1 = true /\
+    tokens body1 = B "OK" :: g :: more /\ guid_ok g = true /\
+    (forall e, cc_expected cfg = Some e -> e = g) /\
+    fds = fds_of cs /\
+    (if cc_fdcap cfg
+     then exists body2, rest1 = body2 ++ [x0d; x0a] ++ tail /\ no_lf body2 = true /\
+                        (fd = true <-> exists more2, tokens body2 = B "AGREE_UNIX_FD" :: more2)
+     else fd = false /\ tail = rest1).
+Proof. exact client_done_sound. Qed.
+Print Assumptions C17_done_sound.
+
+(* ---- the full statement (the observable outcome is the one the specification prescribes, including that a
+        proper acceptance does complete and that nothing panics) does NOT hold of the pinned code: *)
+Definition C17_full_statement : Prop :=
+  forall cfg cs, chunks_nonempty cs = true ->
+    cconforms (cverdict_of (cctx_of cfg) (stream_of cs)) (fds_of cs) (obs_of (run_client cfg cs)) = true.
+
+Theorem C17_full_statement_refuted : ~ C17_full_statement.
+Proof. exact client_full_statement_refuted. Qed.
+Print Assumptions C17_full_statement_refuted.
+
+(* ---- ... and holds outside the one known class (an LF where a reply line should start) *)
+Theorem C17_conforms_partial : forall cfg cs,
+  chunks_nonempty cs = true ->
+  cknown_class (cctx_of cfg) (stream_of cs) = None ->
+  cconforms (cverdict_of (cctx_of cfg) (stream_of cs)) (fds_of cs) (obs_of (run_client cfg cs)) = true.
+Proof. exact client_conforms. Qed.
+Print Assumptions C17_conforms_partial.
+
+(* in particular a proper acceptance completes, with the prescribed fd capability and leftover *)
+Theorem C17_complete_partial : forall cfg cs fd tail,
+  chunks_nonempty cs = true ->
+  cknown_class (cctx_of cfg) (stream_of cs) = None ->
+  cverdict_of (cctx_of cfg) (stream_of cs) = CVDone fd tail ->
+  exists w, run_client cfg cs = ODone w fd tail (fds_of cs).
+Proof. exact client_complete. Qed.
+Print Assumptions C17_complete_partial.
+
+(* ---- no panic, unless an LF stands where a line should start *)
+Theorem C17_nopanic_partial : forall cfg cs,
+  chunks_nonempty cs = true ->
+  empty_line_ahead (stream_of cs) true = false ->
+  is_panic (run_client cfg cs) = false.
+Proof. exact client_nopanic_partial. Qed.
+Print Assumptions C17_nopanic_partial.
+
+Theorem C17_lf_panic_refuted :
+  exists cfg cs, chunks_nonempty cs = true /\ is_panic (run_client cfg cs) = true.
+Proof. exact client_lf_panic_refuted. Qed.
+Print Assumptions C17_lf_panic_refuted.
